@@ -166,7 +166,8 @@ def targets(tier):
 
 def draw_params(rng):
     subs = [list(c) for k in range(1, 5) for c in itertools.combinations(RATES, k)]
-    dl = float(rng.choice([0.005, 0.02, 0.05, 0.2]))
+    # levels above 0.5 are unusual but accepted: the "bounds" then cross (lower above upper) and nearly every checked sample alarms
+    dl = float(rng.choice([0.005, 0.02, 0.05, 0.05, 0.2, 0.2, 0.7, 0.9]))
     return dict(time_decay_factor=float(rng.choice([0.5, 0.9, 0.99])), warning_level=float(min(0.45, dl * float(rng.choice([1, 2, 4])))),
                 detect_level=dl, burn_in=int(rng.choice([0, 1, 3, 10, 30, 50])), num_mc=int(rng.choice([50, 100, 200, 400])),
                 subsample=int(rng.choice([1, 1, 2, 3, 5])), rates_tracked=subs[int(rng.integers(0, len(subs)))],
@@ -241,7 +242,7 @@ def drive(det, model, pairs, kw, ctx, case, check_sims=True, label="seq", resets
                     if e2:
                         ctx.violation("C06/sim_bounds", "sample %d: %s" % (i, e2), **base)
                         return None
-                    if not (b["lb_warn"] <= b["ub_warn"] and b["lb_detect"] <= b["ub_detect"]):
+                    if (kw["warning_level"] <= 0.5 and not b["lb_warn"] <= b["ub_warn"]) or (kw["detect_level"] <= 0.5 and not b["lb_detect"] <= b["ub_detect"]):
                         ctx.violation("C06/sim_bounds_orientation", "sample %d: lower bound above upper bound: %r" % (i, b), **base)
                         return None
             if st != model.state:
